@@ -538,10 +538,13 @@ def main(run):
                 f.write(c19_py2coq.translate_repo(vlib.REPO, trailer=False))
             rc, out = vlib.coqc_file(dfile, cwd=run.rundir)
             if rc == 0:
-                bad_gen = run.correspond("regenerated-diagnosis", "C19", terms, cases, check="check_gen",
+                bad_gen = run.correspond("regenerated_diagnosis", "C19", terms, cases, check="check_gen",
                                          requires=["Require Import C19_gen_defs."])
-                run.notes.append("diagnosis: regenerated definitions (not equal to the model) disagree with the implementation on "
-                                 "%d cases, the model on %d cases" % (len(bad_gen), len(bad_model)))
+                if run.corr_groups.get("regenerated_diagnosis", {}).get("errors"):
+                    run.notes.append("diagnosis: the shards for the regenerated definitions did not compile")
+                else:
+                    run.notes.append("diagnosis: regenerated definitions (not equal to the model) disagree with the implementation "
+                                     "on %d cases, the model on %d cases" % (len(bad_gen), len(bad_model)))
             else:
                 run.notes.append("diagnosis: regenerated definitions do not compile: " + out[-500:])
         except Exception as e:  # noqa
